@@ -27,6 +27,7 @@ RULE = (
     "attribute whose original container is mutated, or an updated() that replaces some and keeps some attributes, or a "
     "cross-class comparison; distinct = distinct class+arguments+script"
 )
+RULE += '; an instance is compared both ways with its counterpart in every other specialisation of its generic class'
 LEVEL_TEXT = (
     "Invariant checking over generated histories: a deep-frozen snapshot of the instance must be unchanged after every "
     "attempt; updated() is compared attribute-by-attribute with the conformance oracle's stored form; equality is "
@@ -359,6 +360,24 @@ def run_case(case) -> Outcome:
                 continue
             if y is None:
                 continue
+            if other_kind == "otherspec":
+                # ... and every OTHER specialisation that accepts the same arguments as well (related arguments - Any, a
+                # subclass - are the interesting partners): instances of different classes are never equal, either way
+                for o3 in [t for t in [None, *TT.TARGS] if t != cls.get("targ")]:
+                    try:
+                        C3 = mod.C0 if o3 is None else mod.C0[TT._targ_type(o3)]
+                        y3 = C3(**build_args(case["args"]))
+                    except Exception:  # noqa: BLE001 - these arguments do not fit that specialisation
+                        continue
+                    try:
+                        a3, b3 = (x == y3), (y3 == x)
+                    except Exception as exc:  # noqa: BLE001
+                        out.violate("eq", f"C04.eq/raised/{other_kind}", f"{src}{exc!r}")
+                        continue
+                    if bool(a3) != bool(b3):
+                        out.violate("eq", f"C04.eq/asymmetric/{other_kind}", f"{src}x==y {a3}, y==x {b3}; x={x!r} ({type(x).__name__}) y={y3!r} ({type(y3).__name__})")
+                    elif a3:
+                        out.violate("eq", f"C04.eq/equal-although-different/{other_kind}", f"{src}x={x!r} ({type(x).__name__}) y={y3!r} ({type(y3).__name__})")
             try:
                 a, b = (x == y), (y == x)
             except Exception as exc:  # noqa: BLE001
@@ -505,7 +524,7 @@ def strategy(tier):
             elif kind == "inplace":
                 script.append({"o": "inplace", "target": draw(st.sampled_from(["self", "copy", "deepcopy", "updated"]))})
             else:
-                other = draw(st.sampled_from(["self", "twin", "diff1", "diff1", "otherclass", "subclass", "otherspec"]))
+                other = draw(st.sampled_from(["self", "twin", "diff1", "diff1", "otherclass", "subclass", "otherspec", *(["otherspec", "otherspec"] if cls["generic"] else [])]))
                 i = draw(idx)
                 script.append({"o": "eq", "other": other, "attr": i, "val": good_for(i) if other == "diff1" else None})
         for a in attrs:
